@@ -76,6 +76,53 @@ fn main() {
             }
         }
     }
+    // --- stream parameters (C15) on this host: set/get round trip, the other parameter and the key untouched, output equal
+    //     to that of a state created directly with those values, the two stream-equality predicates ------------------------
+    for round in 0..(if on("params") { 20 + 6 * scale } else { 0 }) {
+        const EDGE: [u64; 10] = [0, 1, 0xffff_fffc, 0xffff_ffff, 0x1_0000_0000, 0x7fff_ffff_ffff_ffff, 0x8000_0000_0000_0000, 0xffff_ffff_0000_0000, 0xffff_ffff_ffff_fffd, 0xffff_ffff_ffff_ffff];
+        let key: [u8; 32] = bytes(&mut s, 32).try_into().unwrap();
+        let pick = |s: &mut u64| if splitmix(s) % 3 == 0 { splitmix(s) } else { EDGE[(splitmix(s) % 10) as usize] };
+        // the first twenty rounds: every boundary value as the counter, followed by a 4-block and by a 1-block output
+        let (v0, v1) = if round < 20 { (EDGE[(round / 2) as usize], pick(&mut s)) } else { (pick(&mut s), pick(&mut s)) };
+        let nonce8 = bytes(&mut s, 8);
+        let mut c = ChaCha::new(&key, &nonce8);
+        let sid0 = c.get_stream_param(1);
+        assert_eq!(sid0, u64::from_le_bytes(nonce8.clone().try_into().unwrap()), "stream id of a fresh state");
+        assert_eq!(c.get_stream_param(0), 0, "counter of a fresh state");
+        c.set_stream_param(0, v0);
+        assert_eq!(c.get_stream_param(0), v0, "set/get parameter 0");
+        assert_eq!(c.get_stream_param(1), sid0, "parameter 1 after setting parameter 0");
+        c.set_stream_param(1, v1);
+        assert_eq!(c.get_stream_param(1), v1, "set/get parameter 1");
+        assert_eq!(c.get_stream_param(0), v0, "parameter 0 after setting parameter 1");
+        // a state created directly with those values
+        let mut d = ChaCha::new(&key, &v1.to_le_bytes());
+        d.set_stream_param(0, v0);
+        assert!(c == d, "state after set_stream_param differs from one created directly");
+        assert!(c.stream64_eq(&d) && c.stream32_eq(&d), "equality predicates on equal streams");
+        let mut e = d.clone();
+        e.set_stream_param(0, v0 ^ (1 << (splitmix(&mut s) % 64)));
+        assert!(c.stream64_eq(&e), "stream64_eq must ignore the counter");
+        let mut f = d.clone();
+        f.set_stream_param(1, v1 ^ (1 << (splitmix(&mut s) % 64)));
+        assert!(!c.stream64_eq(&f) && !c.stream32_eq(&f), "equality predicates must see the stream id");
+        let dr = [10u32, 4, 6, 0, 1, 3][(round % 6) as usize];
+        let (mut o1, mut o2) = ([0u8; 256], [0u8; 256]);
+        if round % 2 == 0 {
+            c.refill4(dr, &mut o1);
+            d.refill4(dr, &mut o2);
+        } else {
+            let (mut b1, mut b2) = ([0u8; 64], [0u8; 64]);
+            c.refill(dr, &mut b1);
+            d.refill(dr, &mut b2);
+            o1[..64].copy_from_slice(&b1);
+            o2[..64].copy_from_slice(&b2);
+        }
+        assert!(o1[..] == o2[..], "output after set_stream_param differs from a directly created state");
+        assert_eq!(c.get_stream_param(1), v1, "stream id after output");
+        assert_eq!(c.get_stream_param(0), v0.wrapping_add(if round % 2 == 0 { 4 } else { 1 }), "counter after output from {:#x}", v0);
+        out("params", fold(&o1) ^ c.get_stream_param(0) ^ c.get_stream_param(1).rotate_left(23));
+    }
     // --- stream ciphers: seeks across the low counter word carry, mid-block, current_pos ---------------------------
     for _ in 0..(if on("cipher") { scale } else { 0 }) {
         let key = bytes(&mut s, 32);
